@@ -43,6 +43,7 @@ type c12Canon struct {
 }
 
 func runC12(r *core.Run) {
+	firstCallClause(r, "sequtil.ReverseComplement", "sequtil.CanonicalSubsequences")
 	defer racePass(r, "race-sequtil", "ReverseComplement(String), DNATo2Bit/From2Bit, Translate(ReadingFrames), CanonicalSubsequences, AminoName on one shared src")
 
 	L := core.Pick(r, 4, 7)
